@@ -21,6 +21,8 @@ pub struct Cond {
     pub r#type: CondType,
     pub conds: Vec<Expr>,
     pub result: HashSet<Box<[u8]>>,
+    /// true once the first match set has been accumulated into `result`
+    pub(crate) calculated: bool,
 }
 
 #[derive(Debug, Clone, PartialEq)]
@@ -114,6 +116,7 @@ impl Cond {
             r#type: CondType::Or,
             conds: Default::default(),
             result: HashSet::new(),
+            calculated: false,
         }
     }
 
@@ -122,6 +125,7 @@ impl Cond {
             r#type: CondType::And,
             conds: Default::default(),
             result: HashSet::new(),
+            calculated: false,
         }
     }
 
@@ -161,9 +165,11 @@ impl Query {
 
     pub fn calc(&self) -> HashSet<Box<[u8]>> {
         let mut result = HashSet::new();
+        let mut first = true;
         for cond in self.conds.iter() {
-            if result.is_empty() {
+            if first {
                 result = cond.result.clone();
+                first = false;
             } else {
                 result = result
                     .intersection(&cond.result)
